@@ -60,7 +60,7 @@ mod __verif_c05_def {
         (rg, schema)
     }
 
-    // @harness tiers=thorough timeout=2400
+    // @harness tiers=experimental timeout=2400
     // @encodes storage::row_group_pruning::row_group_definitely_matches, storage::row_group_pruning::definite_comparison, storage::row_group_pruning::row_group_might_match, storage::row_group_pruning::check_comparison
     // @bounds one BIGINT column `c` with symbolic Int64 statistics (all i64 min <= v <= max, any null count), predicate `c op lit` or `lit op c` with any i64 literal and the 6 comparison operators
     // @oracle definitely_matches => null_count == 0 and row(v op lit) for every value the group holds; row(v op lit) => might_match
